@@ -129,10 +129,12 @@ class Run:
         self.uid += 1
         return self.uid
 
-    def choose(self, n: int) -> int:
+    def choose(self, n: int, weights: list[int] | None = None) -> int:
         if self.replay_actions is not None:
             c = self.replay_actions.pop(0) if self.replay_actions else 0
             c = c % n
+        elif weights is not None:
+            c = self.rng.choices(range(n), weights=weights)[0]  # a biased schedule; what is recorded is the index
         else:
             c = self.rng.randrange(n)
         self.trace.actions.append(c)
@@ -310,6 +312,7 @@ async def _interp(run: Run, sdef: dict, ctx: Context, ev: Any, rn: int) -> Any:
             key = (name, uid, rn, len(run.gates))
             g = asyncio.Event()
             run.gates[key] = g
+            run.__dict__.setdefault("gate_k", {})[key] = getattr(ev, "k", None)
             run.waiting.append(key)
             try:
                 await g.wait()
@@ -651,7 +654,12 @@ def _quiescent(run: Run, loop: VLoop) -> bool:
         return False
     if has_timer:
         options.append(("time", None))
-    kind, arg = options[run.choose(len(options))]
+    weights = None
+    if run.spec.get("hold_k") is not None:
+        # spec["hold_k"]: invocations whose input event carries this k are released reluctantly (they outlive the others)
+        gk = getattr(run, "gate_k", {})
+        weights = [1 if (kd == "gate" and gk.get(a) == run.spec["hold_k"]) else 8 for (kd, a) in options]
+    kind, arg = options[run.choose(len(options), weights)]
     if kind == "time":
         return False
     if kind == "gate":
